@@ -56,6 +56,7 @@ pub enum Op {
     Indexes,
     Keys,
     Dkeys,
+    Resume(usize),
     Len,
     Bad,
 }
@@ -153,6 +154,7 @@ fn parse_op(rank: usize, tok: &str) -> Op {
         ["indexes"] => Some(Op::Indexes),
         ["keys"] => Some(Op::Keys),
         ["dkeys"] => Some(Op::Dkeys),
+        ["resume", k] => to_nat(k).map(|k| Op::Resume(k as usize)),
         ["len"] => Some(Op::Len),
         _ => None,
     };
@@ -255,6 +257,208 @@ pub fn dump_enum(w: &mut String, it: &mut dyn Iterator<Item = Vec<usize>>) {
     }
 }
 
+/// an index tuple as the enumerations yield it
+pub trait Item: Sized {
+    fn to_vec(&self) -> Vec<usize>;
+    /// `Iterator::min` / `Iterator::max` when the tuple type is `Ord` (arrays / tuples of usize), else `min_by` /
+    /// `max_by` over the usize values (newtype indices are not `Ord`)
+    fn it_min<I: Iterator<Item = Self>>(it: I) -> Option<Self>;
+    fn it_max<I: Iterator<Item = Self>>(it: I) -> Option<Self>;
+}
+
+macro_rules! ord_item {
+    () => {
+        fn it_min<I: Iterator<Item = Self>>(it: I) -> Option<Self> {
+            it.min()
+        }
+        fn it_max<I: Iterator<Item = Self>>(it: I) -> Option<Self> {
+            it.max()
+        }
+    };
+}
+macro_rules! by_item {
+    () => {
+        fn it_min<I: Iterator<Item = Self>>(it: I) -> Option<Self> {
+            it.min_by(|x, y| x.to_vec().cmp(&y.to_vec()))
+        }
+        fn it_max<I: Iterator<Item = Self>>(it: I) -> Option<Self> {
+            it.max_by(|x, y| x.to_vec().cmp(&y.to_vec()))
+        }
+    };
+}
+
+impl<const N: usize> Item for [usize; N] {
+    fn to_vec(&self) -> Vec<usize> {
+        self.as_slice().to_vec()
+    }
+    ord_item!();
+}
+impl Item for usize {
+    fn to_vec(&self) -> Vec<usize> {
+        vec![*self]
+    }
+    ord_item!();
+}
+impl Item for (usize, usize) {
+    fn to_vec(&self) -> Vec<usize> {
+        vec![self.0, self.1]
+    }
+    ord_item!();
+}
+impl Item for (usize, usize, usize) {
+    fn to_vec(&self) -> Vec<usize> {
+        vec![self.0, self.1, self.2]
+    }
+    ord_item!();
+}
+/// newtype index (`new_type_domain!`): only `Debug, Clone, Copy` and the usize conversions
+pub trait NewT: Clone + Into<usize> {
+    fn us(&self) -> usize {
+        self.clone().into()
+    }
+}
+impl<A: NewT> Item for A {
+    fn to_vec(&self) -> Vec<usize> {
+        vec![self.us()]
+    }
+    by_item!();
+}
+impl<A: NewT, B: NewT> Item for (A, B) {
+    fn to_vec(&self) -> Vec<usize> {
+        vec![self.0.us(), self.1.us()]
+    }
+    by_item!();
+}
+impl<A: NewT, B: NewT, C: NewT> Item for (A, B, C) {
+    fn to_vec(&self) -> Vec<usize> {
+        vec![self.0.us(), self.1.us(), self.2.us()]
+    }
+    by_item!();
+}
+
+fn put_opt_tup(w: &mut String, o: Option<Vec<usize>>) {
+    match o {
+        None => w.push_str(" N"),
+        Some(k) => {
+            w.push_str(" S");
+            put_tup(w, &k);
+        }
+    }
+}
+
+fn put_tups(w: &mut String, v: &[Vec<usize>]) {
+    for k in v {
+        w.push(' ');
+        put_tup(w, k);
+    }
+}
+
+/// the multi-index with every coordinate at its maximum (0 for an empty axis: then nothing is enumerated anyway)
+pub fn last_of(dims: &[usize]) -> Vec<usize> {
+    dims.iter().map(|d| d.saturating_sub(1)).collect()
+}
+
+/// `resume:<k>` on one enumeration.  `mk` makes a fresh iterator of the CONCRETE type the crate returns (no adaptor,
+/// no `dyn`: a provided method overridden by that type must be the one that is called).  Every consumer gets its own
+/// fresh iterator advanced by `k` calls of `next()`:
+/// `adv <k results> sh:<lo>:<hi|N> col <..> fe <..> fo <..> cnt <n> last <o> nth0 <o> nth1 <o> <o> skip1 <o>
+///  step2 <..> min <o> max <o> pos <N|Sn> all <T|F> <o>`      (`<o>` = `N` or `S<tuple>`)
+pub fn dump_resume<T: Item, I: Iterator<Item = T>>(w: &mut String, k: usize, last: &[usize], mk: &dyn Fn() -> I) {
+    let fresh = || {
+        let mut it = mk();
+        let adv: Vec<Option<Vec<usize>>> = (0..k).map(|_| it.next().map(|t| t.to_vec())).collect();
+        (it, adv)
+    };
+    let (it, adv0) = fresh();
+    w.push_str(" adv");
+    for a in &adv0 {
+        put_opt_tup(w, a.clone());
+    }
+    // the hint of the advanced iterator, as it is, before anything is consumed
+    let (lo, hi) = it.size_hint();
+    let _ = write!(w, " sh:{}:", lo);
+    match hi {
+        None => w.push('N'),
+        Some(h) => {
+            let _ = write!(w, "{}", h);
+        }
+    }
+    drop(it);
+    // a further fresh iterator; its `k` leading items must be the ones already printed
+    let get = |w: &mut String| -> I {
+        let (it, adv) = fresh();
+        if adv != adv0 {
+            w.push_str(" adv!");
+        }
+        it
+    };
+    let vecs = |v: Vec<T>| -> Vec<Vec<usize>> { v.iter().map(|t| t.to_vec()).collect() };
+
+    let it = get(w);
+    w.push_str(" col");
+    put_tups(w, &vecs(it.collect::<Vec<_>>()));
+
+    let it = get(w);
+    w.push_str(" fe");
+    let mut v: Vec<Vec<usize>> = vec![];
+    it.for_each(|t| v.push(t.to_vec()));
+    put_tups(w, &v);
+
+    let it = get(w);
+    w.push_str(" fo");
+    let v = it.fold(Vec::new(), |mut acc: Vec<Vec<usize>>, t| {
+        acc.push(t.to_vec());
+        acc
+    });
+    put_tups(w, &v);
+
+    let it = get(w);
+    let _ = write!(w, " cnt {}", it.count());
+
+    let it = get(w);
+    w.push_str(" last");
+    put_opt_tup(w, it.last().map(|t| t.to_vec()));
+
+    let mut it = get(w);
+    w.push_str(" nth0");
+    put_opt_tup(w, it.nth(0).map(|t| t.to_vec()));
+
+    let mut it = get(w);
+    w.push_str(" nth1");
+    put_opt_tup(w, it.nth(1).map(|t| t.to_vec()));
+    put_opt_tup(w, it.next().map(|t| t.to_vec()));
+
+    let it = get(w);
+    w.push_str(" skip1");
+    put_opt_tup(w, it.skip(1).next().map(|t| t.to_vec()));
+
+    let it = get(w);
+    w.push_str(" step2");
+    put_tups(w, &vecs(it.step_by(2).collect::<Vec<_>>()));
+
+    let it = get(w);
+    w.push_str(" min");
+    put_opt_tup(w, T::it_min(it).map(|t| t.to_vec()));
+
+    let it = get(w);
+    w.push_str(" max");
+    put_opt_tup(w, T::it_max(it).map(|t| t.to_vec()));
+
+    let mut it = get(w);
+    w.push_str(" pos");
+    match it.position(|t| t.to_vec() == last) {
+        None => w.push_str(" N"),
+        Some(p) => {
+            let _ = write!(w, " S{}", p);
+        }
+    }
+
+    let mut it = get(w);
+    w.push_str(" all");
+    w.push_str(if it.all(|_| true) { " T" } else { " F" });
+    put_opt_tup(w, it.next().map(|t| t.to_vec()));
+}
+
 /// the operations of one array kind (state: registers `a` and `b`); a panic unwinds to `step`
 pub trait Kind {
     fn op_zeros(&mut self) -> Res;
@@ -289,10 +493,12 @@ pub trait StaticKind {
     fn indexes(&self, w: &mut String);
     fn keys(&self, w: &mut String) -> Res;
     fn dkeys(&self, w: &mut String) -> Res;
+    /// `ix <resume observations of indexes()> ky <those of keys() | na>`
+    fn resume(&self, k: usize, w: &mut String);
 }
 
 fn is_static(op: &Op) -> bool {
-    matches!(op, Op::Indexes | Op::Keys | Op::Dkeys)
+    matches!(op, Op::Indexes | Op::Keys | Op::Dkeys | Op::Resume(_))
 }
 
 fn exec_static(k: &dyn StaticKind, op: &Op, w: &mut String) -> Res {
@@ -303,6 +509,10 @@ fn exec_static(k: &dyn StaticKind, op: &Op, w: &mut String) -> Res {
         }
         Op::Keys => k.keys(w),
         Op::Dkeys => k.dkeys(w),
+        Op::Resume(n) => {
+            k.resume(*n, w);
+            Res::Ok
+        }
         _ => Res::Na,
     }
 }
@@ -402,7 +612,7 @@ fn exec(k: &mut dyn Kind, op: &Op, w: &mut String) -> Res {
             k.with(w);
             Res::Ok
         }
-        Op::Indexes | Op::Keys | Op::Dkeys => Res::Na, // state-free: handled by `step_static`
+        Op::Indexes | Op::Keys | Op::Dkeys | Op::Resume(_) => Res::Na, // state-free: handled by `step_static`
         Op::Len => k.len(w),
         Op::Bad => Res::Na,
     }
